@@ -20,5 +20,11 @@ for meta in sorted(glob.glob(os.path.join(ROOT, "seeded", "*", "meta.json"))):
     print("%-48s own=%s caught_by=%s (%.0fs)" % (m["id"], "CAUGHT" if m["breaks_property"] in c else "MISSED", ",".join(c), time.time() - t0), flush=True)
 missed = [k for k, v in res.items() if k.split("-")[0] not in v]
 print("\n%d seeds, %d missed by their own property's check: %s" % (len(res), len(missed), missed))
-json.dump(res, open(os.path.join(ROOT, "seeded", "last_matrix.json"), "w"), indent=1)
+mpath = os.path.join(ROOT, "seeded", "last_matrix.json")
+try:
+    allres = json.load(open(mpath))
+except Exception:
+    allres = {}
+allres.update(res)  # a partial run refreshes its seeds only
+json.dump(dict(sorted(allres.items())), open(mpath, "w"), indent=1)
 sys.exit(1 if missed else 0)
